@@ -1772,6 +1772,11 @@ mod crypto {
 
     impl Drop for CryptoWriter<'_> {
         fn drop(&mut self) {
+            if self.failed {
+                // An earlier write or flush has already failed and reported its error to the caller.
+                // As documented in the message below, Drop does not panic in that case.
+                return;
+            }
             self.flush().expect("The implicit flush in the Drop of CryptoWriter failed. This causes this panic. If you want to be able to handle this, make sure to call flush() manually. If a manual flush has failed, Drop won't panic.");
         }
     }
@@ -1875,7 +1880,7 @@ mod crypto {
     impl Write for CryptoWriter<'_> {
         fn write(&mut self, buf: &[u8]) -> Result<usize, Error> {
             if self.failed {
-                panic!("Call to failed CryptoWriter");
+                return Err(Error::new(ErrorKind::Other, "Call to failed CryptoWriter"));
             }
             self.buf.extend(buf);
             if self.buf.len() > crypto_bufsize() {
